@@ -35,9 +35,20 @@ class QueryFailed(Exception):
     pass
 
 
+_STRANGER = [object()]
+
+
 def query(mm):
     try:
         list(mm.all_resources()); list(mm.window_patterns()); list(mm.resources()); list(mm.windows())
+        mm.decode_address(0)
+        try:
+            mm.find_resource(_STRANGER[0])
+            raise QueryFailed("find_resource() of an object that was never added did not raise KeyError")
+        except KeyError:
+            pass
+    except QueryFailed:
+        raise
     except Exception as e:
         raise QueryFailed(f"{type(e).__name__}: {e}")
 
